@@ -68,6 +68,7 @@ type itr struct {
 	assertExt map[string]string // `x.(*T)` for a translated struct T -> extern (none = the assertion panics)
 	earlyItems string           // inside a loop with early returns: the loop state without the recorded result
 	srcExt    map[string]string // calls identified by their source text (`q.world.closeQuery`) kept as state-threading externs writing through their first argument
+	dropSelf  bool              // a pointer to the struct being translated handed to an extern (`arch.Init(a, …)`) is dropped
 	selfRet   bool              // builder methods return their receiver: that result is dropped
 	curSelfRet bool
 	reflectIf string            // extern that stands for an `if` over reflect calls assigning one Boolean
@@ -973,6 +974,9 @@ func (t *itr) call(x *ast.CallExpr, pre *[]string, wantValue bool) string {
 	}
 	args := []string{}
 	for _, a := range x.Args {
+		if id, ok := a.(*ast.Ident); ok && t.dropSelf && t.recv != "" && id.Name == t.recv {
+			continue // the receiver itself handed to code outside the module
+		}
 		if cl, ok := a.(*ast.CompositeLit); ok && len(cl.Elts) == 0 {
 			if _, isTok := t.tokenOf(t.typeOf(a)); isTok {
 				continue // the zero value of an object outside the module (pagedSlice.Add(archetype{}))
@@ -2578,8 +2582,25 @@ func (t *itr) emitStruct(sb *strings.Builder, name string) {
 		}
 	}
 	fmt.Fprintf(sb, "/-- %s:%d `%s` -/\nstructure %s%s where\n", relPath(pos.Filename), pos.Line, name, name, tparams)
+	fieldsOf := []*types.Var{}
 	for i := 0; i < st.NumFields(); i++ {
 		f := st.Field(i)
+		if f.Embedded() {
+			// an embedded (pointer to a) struct: its fields are promoted — the structure is flattened
+			et := f.Type()
+			if p, ok := et.(*types.Pointer); ok {
+				et = p.Elem()
+			}
+			if es, ok := et.Underlying().(*types.Struct); ok {
+				for k := 0; k < es.NumFields(); k++ {
+					fieldsOf = append(fieldsOf, es.Field(k))
+				}
+				continue
+			}
+		}
+		fieldsOf = append(fieldsOf, f)
+	}
+	for _, f := range fieldsOf {
 		if v, ok := t.view[name]; ok {
 			keep := false
 			for _, k := range v {
@@ -3128,4 +3149,92 @@ func genGeneric(repo string, tiny bool) (string, []string) {
 	fmt.Fprintf(&sb, "end %s\n", ns)
 	// `include` is a keyword of Lean: the Go identifier of that name is written `included`
 	return regexp.MustCompile(`\binclude\b`).ReplaceAllString(sb.String(), "included"), t.errs
+}
+
+// genNode: the graph node (ecs/archetype_node.go `archNode` with its embedded `nodeData`): table lookup, creation with
+// recycling of retired tables, retirement, reset, layout extension. Tables, paged storage and the filter cache are
+// objects outside the module.
+func genNode(repo string, tiny bool) (string, []string) {
+	ecs, err := loadPkg(repo, "ecs", "github.com/mlange-42/arche/ecs", tiny)
+	if err != nil {
+		return "", []string{err.Error()}
+	}
+	ns, mns, imp, pns := "ArcheGen.N256", "ArcheGen.M256", "ArcheGen.Pool256", "ArcheGen.P256"
+	if tiny {
+		ns, mns, imp, pns = "ArcheGen.N64", "ArcheGen.M64", "ArcheGen.Pool64", "ArcheGen.P64"
+	}
+	t := &itr{p: ecs, structs: map[string]bool{"archNode": true, "Entity": true}, opaque: map[string]bool{}, maskNS: mns}
+	t.ns = ns
+	t.ptrOption = true
+	t.tokens = map[string]bool{"archetype": true, "archetypeData": true, "pagedSlice": true, "Cache": true}
+	t.view = map[string][]string{"archNode": {"archetype", "archetypeMap", "freeIndices", "archetypes", "archetypeData", "Mask", "Relation", "HasRelation", "IsActive"}}
+	t.externs = map[string]string{}
+	t.extOwner = map[string]string{}
+	for k, v := range map[string][2]string{
+		"pagedGetF":      {"tok.pagedGet", "Nat → BitVec 32 → Option Nat"},
+		"pagedLenF":      {"tok.pagedLen", "Nat → BitVec 32"},
+		"pagedAddF":      {"eff.pagedAdd", "Ext → Nat → Ext × Unit"},
+		"archActivateF":  {"eff.archActivate", "Ext → Option Nat → Entity → BitVec 32 → Ext × Unit"},
+		"archInitF":      {"eff.archInit", "Ext → Option Nat → Option Nat → BitVec 32 → Bool → Int → Entity → Ext × Unit"},
+		"archDeactivateF": {"eff.archDeactivate", "Ext → Option Nat → Ext × Unit"},
+		"archResetF":     {"eff.archReset", "Ext → Option Nat → Ext × Unit"},
+		"archExtendF":    {"eff.archExtendLayouts", "Ext → Option Nat → Int → Ext × Unit"},
+		"cacheRemoveF":   {"eff.cacheRemove", "Ext → Option Nat → Option Nat → Ext × Unit"},
+		"archActiveF":    {"tok.archActive", "Option Nat → Bool"},
+		"archTargetF":    {"tok.Target", "Option Nat → Entity"},
+		"archIndexF":     {"tok.archIndex", "Option Nat → BitVec 32"},
+		"matchesF":       {"iface.Matches", "GoAny → " + mns + ".Mask → Bool"},
+	} {
+		t.extOwner[k] = v[0]
+		t.externs[v[0]] = v[1]
+	}
+	t.effExt = map[string]string{"pagedSlice.Add": "pagedAddF", "archetype.Activate": "archActivateF", "archetype.Init": "archInitF",
+		"archetype.Deactivate": "archDeactivateF", "archetype.Reset": "archResetF", "archetype.ExtendLayouts": "archExtendF", "Cache.removeArchetype": "cacheRemoveF"}
+	t.tokExt = map[string]string{"pagedSlice.Get": "pagedGetF", "pagedSlice.Len": "pagedLenF", "archetype.IsActive": "archActiveF",
+		"archetype.RelationTarget": "archTargetF", "archetype.index": "archIndexF"}
+	t.ifaceExt = map[string]string{"Matches": "matchesF"}
+	t.effIface = map[string]string{}
+	t.fieldExt = map[string]string{}
+	t.dropSelf = true
+	t.usesEff = map[string]bool{"archNode.CreateArchetype": true, "archNode.RemoveArchetype": true, "archNode.Reset": true, "archNode.ExtendArchetypeLayouts": true}
+	t.nilChecks = map[string]bool{"archNode.CreateArchetype": true, "archNode.RemoveArchetype": true, "archNode.Reset": true, "archNode.ExtendArchetypeLayouts": true, "archNode.GetArchetype": true}
+	t.joinIf = map[string]bool{"archNode.CreateArchetype": true, "archNode.Reset": true, "archNode.ExtendArchetypeLayouts": true}
+	t.needExt = map[string][]string{}
+	var sb strings.Builder
+	fmt.Fprintf(&sb, "/- GENERATED by /verif/extract (imperative translator) from the Go source of /repo — do not edit. -/\nimport %s\nset_option linter.unusedVariables false\nnamespace %s\nopen ArcheGen %s\n\n", imp, ns, pns)
+	t.emitStruct(&sb, "archNode")
+	funcs := []string{"archNode.Matches", "archNode.GetArchetype", "archNode.SetArchetype", "archNode.CreateArchetype", "archNode.ExtendArchetypeLayouts",
+		"archNode.RemoveArchetype", "archNode.Reset"}
+	calls := map[string][]string{"archNode.Reset": {"archNode.RemoveArchetype"}}
+	direct := map[string]map[string]bool{}
+	nerr := len(t.errs)
+	for _, f := range funcs {
+		var tmp strings.Builder
+		t.emitFunc(&tmp, f)
+		direct[f] = map[string]bool{}
+		for ext := range t.extOwner {
+			if strings.Contains(tmp.String(), ext) {
+				direct[f][ext] = true
+			}
+		}
+	}
+	t.errs = t.errs[:nerr]
+	for _, f := range funcs {
+		for _, g := range calls[f] {
+			for e := range direct[g] {
+				direct[f][e] = true
+			}
+		}
+	}
+	for _, f := range funcs {
+		for e := range direct[f] {
+			t.needExt[f] = append(t.needExt[f], e)
+		}
+		sort.Strings(t.needExt[f])
+	}
+	for _, f := range funcs {
+		t.emitFunc(&sb, f)
+	}
+	fmt.Fprintf(&sb, "end %s\n", ns)
+	return sb.String(), t.errs
 }
